@@ -397,6 +397,7 @@ func (w *wbuild) Drive(s *simrt.Sched, out *RunResult) {
 		w.mu.Unlock()
 		w.compareTwins(resA, resB, req, mA, mB)
 	}
+	afterDrift := false
 	for i := 0; i < nops && len(s.Violations) == 0; i++ {
 		kinds := []string{"edit", "build", "edit", "build"}
 		if w.g.Features["wsmut"] {
@@ -457,6 +458,13 @@ func (w *wbuild) Drive(s *simrt.Sched, out *RunResult) {
 			}
 		case "damage":
 			drift := w.g.Features["extfail"] && chance(c, 1, 2, "drift-after-damage")
+			if drift && chance(c, 1, 2, "drift-warm-up") {
+				// make sure there is something to lose: everything is built and cached first
+				doBuild(BuildReq{Kind: "build", Patterns: []string{"//..."}}, base, "before the loss")
+				if len(s.Violations) > 0 {
+					break
+				}
+			}
 			note := w.damageCache(m, drift)
 			for k := range cm.strict {
 				cm.unc[k] = true
@@ -484,6 +492,23 @@ func (w *wbuild) Drive(s *simrt.Sched, out *RunResult) {
 				if len(timed) > 0 && chance(c, 3, 4, "drift-timed") {
 					cands = timed
 				}
+				// ... and dependants that need several dependencies back at once
+				var multi [][2]string
+				for _, pr := range cands {
+					n := 0
+					for _, d := range w.U.DepTargets(w.U.Specs[pr[1]]) {
+						if len(w.U.Specs[d].Outs) > 0 {
+							n++
+						}
+					}
+					if n >= 2 {
+						multi = append(multi, pr)
+					}
+				}
+				if len(multi) > 0 && chance(c, 3, 4, "drift-multi") {
+					cands = multi
+					simrt.Probe("drift-after-damage:dependant-needs-several-dependencies")
+				}
 				if len(cands) > 0 {
 					pr := cands[c.Choose(len(cands), "drift-pair")]
 					snapshots = append(snapshots, w.U.Clone())
@@ -494,6 +519,7 @@ func (w *wbuild) Drive(s *simrt.Sched, out *RunResult) {
 					}
 					nu.Ext["fail_"+pr[0]] = kind
 					simrt.Probe("drift-after-damage:" + kind)
+					afterDrift = true
 					nu.Specs[pr[1]].Ver++
 					ed := Edit{Op: "drift-after-damage", Target: pr[0], Detail: kind + "; command of " + pr[1] + " edited"}
 					w.mu.Lock()
@@ -502,6 +528,13 @@ func (w *wbuild) Drive(s *simrt.Sched, out *RunResult) {
 					w.syncWorkspace(m, nu)
 					cs.History = append(cs.History, HistOp{Op: "edit", Edit: &ed})
 					shapeParts = append(shapeParts, ed.Op)
+					if chance(c, 1, 2, "drift-build-now") {
+						// ... and the build that has to bring the lost dependencies back follows at once
+						opts := base
+						opts.Workers = []int{1, 1, 2, 4}[c.Choose(4, "workers")]
+						afterDrift = false
+						doBuild(BuildReq{Kind: "build", Patterns: []string{"//..."}}, opts, "after the loss")
+					}
 				}
 			}
 		case "edit":
@@ -525,6 +558,13 @@ func (w *wbuild) Drive(s *simrt.Sched, out *RunResult) {
 		case "build":
 			opts := base
 			opts.Workers = 1 + c.Choose(4, "workers")
+			if afterDrift {
+				// the build that has to bring several lost dependencies back: tightest worker bound
+				afterDrift = false
+				if chance(c, 1, 2, "one-worker-after-drift") {
+					opts.Workers = 1
+				}
+			}
 			if w.g.Features["fail"] && w.mode != "twin" && chance(c, 1, 4, "failfast") {
 				opts.FailFast = true
 			}
